@@ -18,6 +18,8 @@ CONFIGS = {
     ('heap n=3 members down, up and leaving in any order', {'kind': 'heap', 'n': 3, 'ops': ['D', 'C', 'Down', 'Up', 'Leave'], 'max_out': 2,
                                                             'max_down': 2, 'max_notifications': 1}, 9),
     ('heap n=3 members down and up in any order', {'kind': 'heap', 'n': 3, 'ops': ['D', 'C', 'Down', 'Up'], 'max_out': 3, 'max_down': 2}, 10),
+    ('aperture n=3 min_size=1 members leaving while loaded', {'kind': 'aperture', 'n': 3, 'min_size': 1, 'ops': ['D', 'C', 'Leave', 'Join'],
+                                                              'max_out': 3, 'max_notifications': 3}, 7),
     ('aperture n=3 min_size=2', {'kind': 'aperture', 'n': 3, 'min_size': 2, 'ops': ['D', 'C', 'Down', 'Up', 'Adv', 'Leave'],
                                  'max_out': 4, 'max_down': 1, 'advs': [1, 3], 'max_notifications': 1}, 6),
   ],
@@ -43,6 +45,7 @@ def run(prop, prefixes, configs, tier, seed, rule, assumptions):
   pool = bfs.make_pool()
   try:
     for name, params, depth in configs[tier]:
+      params = dict(params, prefixes=list(prefixes))
       res = bfs.run_bfs('vt.lbharness', 'expand', params, depth, pool, seed=seed, stop_on_violation=False)
       other = [v for v in res.violations if not v['clause'].startswith(prefixes)]
       res.violations = [v for v in res.violations if v['clause'].startswith(prefixes)]
